@@ -15,8 +15,10 @@ HOOK POINTS (for the concurrency scheduler and other re-users)
     the shim), may raise ``OSError`` (becomes the result of the step, like fail@k) or ``Crash``.
     ``g(ev)`` is called after the real call returned or raised (``ev["res"]`` filled in).
     A gate that only wants the contended steps filters on ``ev["paths"]`` / ``ev["op"]`` / ``ev["mut"]``.
-* ``shim.step(op, paths, mut, n=None)`` is the single choke point every wrapper goes through; subclass and
-  override it to change numbering or fault decisions.  It returns None (perform the call) or ("torn", nbytes).
+* ``shim.step(op, paths, mut, n=None, via=None)`` is the single choke point every wrapper goes through; subclass and
+  override it to change numbering or fault decisions.  It returns ``(ev, None)`` (perform the call, then report with
+  ``shim._call(ev, fn, ...)`` / ``shim._done(ev)``) or ``(ev, (kind, arg))`` for a partial write (``_partial_write``);
+  it raises ``Crash`` / ``OSError`` for injected outcomes and ``Crash`` for every call once frozen.
 * ``shim.orig``: the original callables (``"os.replace"``, ``"builtins.open"``, ...) for code that must
   bypass the shim (controllers, observers running inside the same process).
 * ``shim.events``: list of event dicts in program order (per process; pool threads append under a lock).
@@ -67,8 +69,10 @@ listing="sorted" | "reversed" | callable
 
 Not interposed (documented limits): C extensions doing their own I/O (h5py), ``os.DirEntry`` methods
 (read-only), modules that captured ``open`` at import (``tarfile.bltn_open``, ``zipfile``'s ``io.open`` are
-looked up at call time and ARE covered; tarfile is not), ``mmap``.  The strace audit (``strace_audit``)
-checks completeness for a concrete scenario: every mutating syscall under root must have a shim event.
+looked up at call time and ARE covered; tarfile is not), ``mmap``.  Completeness is audited for concrete scenarios with
+strace (``parse_strace`` / ``events_for_audit`` below, driven by ``drivers/c10.py:audit``): every successful mutating
+syscall under root (open with a creating/writing flag, write, rename*, unlink*, mkdir*, rmdir, symlink*, link*, utimensat,
+chmod*, chown*, truncate, setxattr) must have a shim event with the same path and byte count, in the same order.
 """
 import builtins
 import errno as _errno
@@ -77,8 +81,6 @@ import json
 import os
 import re
 import shutil
-import stat as _stat
-import subprocess
 import sys
 import threading
 
@@ -173,7 +175,9 @@ class Shim:
         return None
 
     def rel(self, a):
-        r = "." if a == self.root else a[len(self._rootp):]
+        if a == self.root:
+            return "."
+        r = a[len(self._rootp):] if a.startswith(self._rootp) else "<outside>" + a
         return UUID_TMP.sub("._<U>_", r)
 
     # ---- the choke point -----------------------------------------------------------------
@@ -299,15 +303,15 @@ class Shim:
             fn = o["os." + name]
 
             def w(src, dst, *a, **kw):
-                if name == "symlink":  # the target text is not a path operand
+                if name == "symlink":  # the link text is not a path operand; only the new name counts
                     pa = [shim._abs(dst, kw.get("dir_fd"))]
+                    shown = pa
                 else:
                     pa = [shim._abs(src, kw.get("src_dir_fd")), shim._abs(dst, kw.get("dst_dir_fd"))]
+                    shown = [p if p else os.path.abspath(os.fspath(q)) for p, q in zip(pa, (src, dst))]
                 if not any(pa):
-                    if shim.frozen:
-                        pass
                     return fn(src, dst, *a, **kw)
-                ev, _ = shim.step(name, [p if p else str(q) for p, q in zip(pa, (src, dst) if len(pa) == 2 else (dst,))], True)
+                ev, _ = shim.step(name, shown, True)
                 return shim._call(ev, fn, src, dst, *a, **kw)
             w.__name__ = name
             return w
@@ -324,7 +328,8 @@ class Shim:
                 else:
                     via = None
                     if name in ("stat", "lstat"):  # os.path.isdir/isfile/exists/islink swallow every OSError by design
-                        if sys._getframe(1).f_code.co_filename.endswith(("genericpath.py", "posixpath.py")):
+                        cf = sys._getframe(1).f_code.co_filename  # "<frozen genericpath>" on 3.12
+                        if "genericpath" in cf or "posixpath" in cf or "ntpath" in cf:
                             via = "os.path"
                     ev, _ = shim.step(name, [pa], mut, via=via)
                     r = shim._call(ev, fn, path, *a, **kw)
@@ -666,8 +671,19 @@ def parse_strace(text, root, cwd=None):
     def under(p):
         return p == root or p.startswith(root + "/")
 
-    for line in text.splitlines():
-        line = re.sub(r"^\s*\d+\s+", "", line) if re.match(r"^\s*\d+\s+\w+\(", line) else line
+    pending = {}  # pid -> text of an unfinished call (threads interleave in the -f output)
+    lines = []
+    for raw in text.splitlines():
+        mp = re.match(r"^\s*(\d+)\s+(.*)$", raw)
+        pid, body = (mp.group(1), mp.group(2)) if mp else ("", raw.strip())
+        if body.endswith("<unfinished ...>"):
+            pending[pid] = body[: -len("<unfinished ...>")].rstrip()
+            continue
+        mr = re.match(r"^<\.\.\. \w+ resumed>(.*)$", body)
+        if mr:
+            body = pending.pop(pid, "") + mr.group(1)
+        lines.append(body)
+    for line in lines:
         m = _ST_LINE.match(line.strip())
         if not m:
             continue
@@ -682,7 +698,7 @@ def parse_strace(text, root, cwd=None):
             if full and under(full):
                 out.append(("open", full, None))
         elif name == "write":
-            if ps and ps[0][0] == "fd" and under(ps[0][1]):
+            if ps and ps[0][0] == "fd" and under(ps[0][1]) and int(ret) > 0:
                 out.append(("write", ps[0][1], int(ret)))
         elif name == "ftruncate":
             if ps and ps[0][0] == "fd" and under(ps[0][1]):
@@ -693,7 +709,8 @@ def parse_strace(text, root, cwd=None):
                 full = full[-1:]  # the link target text is not a path operand
             hit = [p for p in full if under(p)]
             if hit:
-                out.append((_ST_CLASS[name], hit[-1] if name.startswith(("rename", "link", "symlink")) else hit[0], None))
+                cls = "rmdir" if (name == "unlinkat" and "AT_REMOVEDIR" in args) else _ST_CLASS[name]
+                out.append((cls, hit[-1] if name.startswith(("rename", "link", "symlink")) else hit[0], None))
     return out
 
 
@@ -733,26 +750,7 @@ def events_for_audit(events, root):
         else:
             cls = _EV_CLASS.get(op, op)
         p = e["paths"][-1]
+        if cls == "write" and not e["n"]:
+            continue  # a zero-byte write of the program is a step but not a system call
         out.append((cls, os.path.normpath(os.path.join(root, p)), e["n"] if cls == "write" else None))
     return out
-
-
-def strace_audit(script, root, workdir, env=None, timeout=300):
-    """Run `python script` (which must install a Shim(root, log_fd=3-style log) and write its events as JSON to
-    workdir/events.json) under strace; return (missing, extra, n_syscalls): mutating syscalls under root without a
-    shim event, shim events without a syscall. Temp-name uuids are normalised on both sides."""
-    out = os.path.join(workdir, "strace.out")
-    cmd = ["strace", "-f", "-y", "-s", "0", "-e", "trace=%file,write,ftruncate", "-o", out, sys.executable, script]
-    p = subprocess.run(cmd, cwd=workdir, env=env, stdout=subprocess.PIPE, stderr=subprocess.STDOUT, timeout=timeout)
-    if p.returncode != 0:
-        raise RuntimeError("strace run failed rc=%s: %s" % (p.returncode, p.stdout.decode()[-2000:]))
-    with open(out, errors="replace") as f:
-        sys_ev = parse_strace(f.read(), root)
-    with open(os.path.join(workdir, "events.json")) as f:
-        data = json.load(f)
-    shim_ev = events_for_audit(data["events"], root)
-    lo, hi = data.get("window", [None, None])
-    norm = lambda t: (t[0], UUID_TMP.sub("._<U>_", t[1]), t[2])
-    a = [norm(t) for t in sys_ev]
-    b = [norm(t) for t in shim_ev]
-    return a, b
